@@ -4,15 +4,20 @@ import json, os, re, sys
 res = {}
 if len(sys.argv) > 1:
     for l in open(sys.argv[1]):
-        m = re.match(r'(C\d+): (caught by (\S+)|MISSED by (\S+))', l)
+        m = re.match(r'(C\d+b?): (caught by (\S+)|MISSED by (\S+))', l)
         if m:
-            res[m.group(1)] = ('caught', m.group(3)) if m.group(3) else ('missed', m.group(4))
+            if m.group(3):
+                res[m.group(1)] = ('caught', m.group(3))
+            elif m.group(1) not in res or res[m.group(1)][0] != 'caught':
+                res[m.group(1)] = ('missed', m.group(4))
 EXTRA = {
  'C06': 'patch.diff was written against the tree before the C09 lock-discipline fix (03732d8 changed the three call sites in Parse); patch_adapted.diff is the same change on the repaired tree',
  'C11': 'patch.diff is the seed adapted to the tree after the DHCP fixes (cdc5954 rewrote the condition the seed flattens)',
  'C12': 'the original seed (patch.diff: reboot/rebind ACKs an expired, freed lease) is neutralised by the genuine-defect repair c2e25ba (expired leases are now NAKed before the modified check); patch_adapted.diff applies but yields no violation - correctly, the property holds with it. The own mutant mutants/c12_nice_mode_no_segregation.patch exercises C12 instead and is caught',
  'C15': 'identical in effect to the own mutant mutants/c15_drop_fold.patch',
  'C20': 'patch.diff is the seed adapted to the tree after the fastlog fixes',
+ 'C12b': 'second C12 seed, produced on the repaired tree because the first one was neutralised by a fix; missed by the C12 quick check at first (the subnet-containment assertion carried only the C11 label; C11 caught it), caught by C12 after the assertion was registered under both properties',
+ 'C17b': 'second-round seed; missed by the C17 quick check at first (every harness message carried an A or CNAME record besides the AAAA record), caught after an AAAA-only shape and single-record handler scenarios were added',
  'C09': 'caught twice: by C05 (sequential purge step: self-deadlock on the leaked row lock when the sibling host is made offline in the same pass) and by C09 (thread mode: deadlock findings, replayed natively as hangs)',
 }
 for d in sorted(os.listdir('/verif/seeded')):
@@ -26,7 +31,7 @@ for d in sorted(os.listdir('/verif/seeded')):
     patch = 'patch_adapted.diff' if os.path.exists(nd + '/patch_adapted.diff') else 'patch.diff'
     st, by = res.get(d, ('not run', d))
     meta = {
-        'property': d,
+        'property': d.rstrip('b'),
         'summary': title,
         'what_it_needs_to_manifest': need,
         'produced_by': 'fresh sub-agent given only the property text and a scratch git worktree of /repo (nothing from /verif)',
